@@ -171,10 +171,50 @@ type pairState struct {
 	server2, client2 hccrypto.Cryptographer
 	sa2c, sc2a       *refctl.Sealer
 	stage            map[bool]*bytes.Buffer
+	secret           [32]byte
+	streamWire       map[bool][]byte // everything hc sealed per direction, in order
+	streamPlain      map[bool][]byte
 }
 
+// checkStreams: the receiving side reads a direction's whole traffic from ONE stream reader, one Decrypt call
+// after the other (a caller that hands the connection itself to Decrypt). Message boundaries are not the
+// point (a message that ends in a full frame runs into the next one); every byte must come out, in order.
+func (p *pairState) checkStreams() error {
+	for _, toAcc := range []bool{false, true} {
+		wire, want := p.streamWire[toAcc], p.streamPlain[toAcc]
+		if len(wire) == 0 {
+			continue
+		}
+		var rcv hccrypto.Cryptographer
+		if toAcc {
+			rcv, _ = hccrypto.NewSecureSessionFromSharedKey(p.secret)
+		} else {
+			rcv, _ = hccrypto.NewSecureClientSessionFromSharedKey(p.secret)
+		}
+		r := bytes.NewReader(wire)
+		var got []byte
+		for calls := 0; r.Len() > 0; calls++ {
+			dec, err := rcv.Decrypt(r)
+			if err != nil {
+				return fmt.Errorf("a direction's traffic (%d bytes on the wire) read from one stream reader: Decrypt call %d fails after %d of %d plaintext bytes: %v", len(wire), calls, len(got), len(want), err)
+			}
+			b, _ := ioutil.ReadAll(dec)
+			got = append(got, b...)
+			if calls > len(wire) {
+				return fmt.Errorf("Decrypt makes no progress on a stream reader")
+			}
+		}
+		if !bytes.Equal(got, want) {
+			return fmt.Errorf("a direction's traffic read from one stream reader yields %d plaintext bytes, %d were sent (first difference at %d)", len(got), len(want), firstDiff(got, want))
+		}
+	}
+	return nil
+}
+
+func init() { _ = (*pairState).checkStreams }
+
 func newPair(secret [32]byte) (*pairState, error) {
-	p := &pairState{}
+	p := &pairState{secret: secret, streamWire: map[bool][]byte{}, streamPlain: map[bool][]byte{}}
 	var err error
 	if p.server, err = hccrypto.NewSecureSessionFromSharedKey(secret); err != nil {
 		return nil, err
@@ -208,6 +248,8 @@ func (p *pairState) send(m msg) error {
 	if err != nil {
 		return fmt.Errorf("reading Encrypt's result: %v", err)
 	}
+	p.streamWire[m.ToAccessory] = append(p.streamWire[m.ToAccessory], wire...)
+	p.streamPlain[m.ToAccessory] = append(p.streamPlain[m.ToAccessory], payload...)
 	if n := left(); n != 0 {
 		return fmt.Errorf("after Encrypt and reading its whole result, %d of the message's %d bytes are still unread in the source reader (%s): the next message written through it would carry them again", n, len(payload), m.Mode)
 	}
@@ -326,6 +368,9 @@ func TestC06Prop(t *testing.T) {
 				t.Fatalf("message %d %+v: %v", i, m, err)
 			}
 		}
+		if err := p.checkStreams(); err != nil {
+			t.Fatalf("%v (messages %+v)", err, ms)
+		}
 	})
 }
 
@@ -372,12 +417,18 @@ func TestC06Exhaustive(t *testing.T) {
 			}
 			record(ms, "fixed")
 			p, _ := newPair(secret)
+			failed := false
 			for i, m := range ms {
 				if err := p.send(m); err != nil {
 					stats.Fail("TestC06Exhaustive", err.Error(), map[string]interface{}{"len": l, "mode": mode, "message": i})
 					t.Errorf("len=%d mode=%s message %d: %v", l, mode, i, err)
+					failed = true
 					break
 				}
+			}
+			if err := p.checkStreams(); err != nil && !failed {
+				stats.Fail("TestC06Exhaustive", err.Error(), map[string]interface{}{"len": l, "mode": mode})
+				t.Errorf("len=%d mode=%s: %v", l, mode, err)
 			}
 		}
 	}
